@@ -2,6 +2,7 @@ package main
 
 import (
 	"errors"
+	"fmt"
 	"io"
 	"net"
 	"runtime"
@@ -111,7 +112,7 @@ func (c *sconn) Close() error {
 }
 
 func (c *sconn) LocalAddr() net.Addr                { return sAddr("server") }
-func (c *sconn) RemoteAddr() net.Addr               { return sAddr("client") }
+func (c *sconn) RemoteAddr() net.Addr               { return sAddr(fmt.Sprintf("client-%d", c.id)) }
 func (c *sconn) SetDeadline(t time.Time) error      { return nil }
 func (c *sconn) SetReadDeadline(t time.Time) error  { return nil }
 func (c *sconn) SetWriteDeadline(t time.Time) error { return nil }
